@@ -26,7 +26,7 @@ ASSUMPTIONS = ['multiprocessing.Pool modelled as an inline order-preserving star
 REQUIRED_CLASSES = ['peel:two-imfs', 'peel-mask:two-imfs', 'cap:hit', 'cap:not-hit']
 EXPECTED_LABELS = ['peel-never-raises', 'capped-equals-prefix', 'column-is-next-imf-of-residual', 'mask-capped-equals-prefix',
                    'mask-column-is-next-imf-of-residual', 'returns-array', 'cap-respected', 'finite']
-BUDGET_S = {'quick': 170, 'thorough': 1200}
+BUDGET_S = {'quick': 170, 'thorough': 900}
 OPTS = {'quick': {'sample_every': 9}, 'thorough': {'sample_every': 9, 'timeout_ms': 20000}}
 
 
